@@ -298,16 +298,24 @@ h("ki8_sync", I + "/ki8_entry.rs", "inflate::verif_kani::ki8_entry", ["C16", "C0
   bounds="0..=7 symbolic input bytes, empty bit register, any wrap, header seen or not; reference scan for 00 00 FF FF in the harness")
 
 # ---------------------------------------------------------------- inflateBack
-h("kb1_back_distance", I + "/kb1_back.rs", "inflate::verif_kani::kb1_back", ["C19", "C02"],
-  kernel="KB1", expect_s=300, timeout=2400, weight=3, mem_gb=24,
-  functions=["inflate::infback::back (modes Type, Len incl. distance decoding and the window copy loop, Done, Bad)", "inffixed_tbl::{LENFIX,DISTFIX}"],
-  bounds="windowBits 8 (256-byte window as a typed local), one input slice of 10 bytes: 8 concrete prefix bytes (final fixed block, six literals, "
-         "length-3 code) + 2 symbolic bytes = every distance code and extra-bit value; output callback records what it is given",
-  unwindset=[("infback::back", None, 3), ("infback::back", 0, 12),
-             ("infback::back", ("zlib-rs/src/inflate/infback.rs", "for _ in 0..copy {"), 5),
-             ("kb1_back::out_cb", None, 17), ("kb1_back::kb1_back_distance", None, 10)],
-  assumptions=["inflate_table stubbed by assume(false) (dynamic blocks outside)", "inflate_fast_back behind a checked stub (needs >= 15 input bytes)",
-               "concrete prefix: CBMC keeps decoder modes concrete only for fully concrete bytes (DESIGN.md §1)"])
+KB1_US = [("infback::back", None, 3), ("infback::back", 0, 16),
+          ("infback::back", ("zlib-rs/src/inflate/infback.rs", "for _ in 0..copy {"), 5),
+          ("kb1_back::out_cb", None, 17), ("kb1_back::back_instance", None, 14)]
+KB1_AS = ["inflate_table stubbed by assume(false) (dynamic blocks outside)", "inflate_fast_back behind a checked stub (needs >= 15 input bytes)",
+          "concrete prefix: CBMC keeps decoder modes concrete only for fully concrete bytes (DESIGN.md §1)", "one input slice; output callback never aborts"]
+_quick1 = {0, 4, 15, 16, 29, 30}
+for _d in range(32):
+    h("kb1_back_lit1_d%d" % _d, I + "/kb1_back.rs", "inflate::verif_kani::kb1_back", ["C19", "C02"] if _d in _quick1 else ["C19"],
+      kernel="KB1", tier="quick" if _d in _quick1 else "thorough", expect_s=120, timeout=1500, weight=2, mem_gb=16, unwindset=KB1_US,
+      functions=["inflate::infback::back (modes Type, Len incl. distance decoding, the too-far check and the window copy loop, Done, Bad)"],
+      bounds="windowBits 8 (256-byte window as a typed local); concrete prefix: final fixed block, 1 literal, length-3 code, distance code %d; "
+             "then 2 symbolic bytes = every value of the extra bits and whatever follows" % _d, assumptions=KB1_AS)
+for _d in range(8):
+    h("kb1_back_lit9_d%d" % _d, I + "/kb1_back.rs", "inflate::verif_kani::kb1_back", ["C19"],
+      kernel="KB1", tier="quick" if _d in (0, 5) else "thorough", expect_s=200, timeout=1800, weight=2, mem_gb=16, unwindset=KB1_US,
+      functions=["inflate::infback::back"],
+      bounds="windowBits 8; concrete prefix: final fixed block, 9 literals, length-3 code, distance code %d (distances %s); then 2 symbolic bytes; "
+             "in-window matches must reproduce the LZ77 bytes" % (_d, "1..=8 region"), assumptions=KB1_AS)
 
 # ---------------------------------------------------------------- checksums (C09)
 CB = "zlib-rs/src/crc32/braid/verif_kani.rs"
@@ -362,18 +370,28 @@ h("kd10c_symbuf_clone_to", "zlib-rs/src/deflate/sym_buf/verif_kani.rs", "deflate
 h("ki8c_window_clone_to", "zlib-rs/src/inflate/window/verif_kani.rs", "inflate::window::verif_kani", ["C14"], kernel="KI8c", expect_s=20, timeout=600,
   functions=["inflate::Window::clone_to", "Window::extend"], bounds="W = 8, any history from one extend of <= 12 bytes")
 
-h("ki5c_codelens", BLK, BP, ["C03", "C02", "C04"], kernel="KI5c", expect_s=300, timeout=2400, weight=2, mem_gb=16,
-  functions=["State::dispatch (mode CodeLens, Len_, Len)"],
-  bounds="concrete code-length code {0:2,1:2,2:3,16:3,17:3,18:3 bits}, HLIT 257 / HDIST 3, 1..=12 lengths outstanding, 16 symbolic input bits, "
-         "symbolic previous length and end-of-block length; oracle = reference RLE decoder (RFC 1951 3.2.7) in the harness",
-  unwindset=DISPATCH_US(4, inner=10),
-  assumptions=["inflate_table -> stub returning Success (table contents are KI4's subject; the symbol decoder is stubbed to suspend)",
-               "State::len_and_friends -> 'suspends at once'", "checked stubs for Writer::copy_match / extend_from_window"])
+for _r, _tier in [(1, "quick"), (3, "thorough"), (6, "quick"), (11, "quick"), (12, "thorough")]:
+    h("ki5c_codelens_r%d" % _r, BLK, BP, ["C03", "C02", "C04"], kernel="KI5c", tier=_tier, expect_s=200, timeout=1800, weight=2, mem_gb=16,
+      functions=["State::dispatch (mode CodeLens, Len_, Len)"],
+      bounds="concrete code-length code {0:2,1:2,2:3,16:3,17:3,18:3 bits}, HLIT 257 / HDIST 3, %d lengths outstanding (concrete), 12 symbolic input bits, "
+             "symbolic previous length and end-of-block length; oracle = reference RLE decoder (RFC 1951 3.2.7) in the harness" % _r,
+      unwindset=DISPATCH_US(2, inner=8),
+      assumptions=["inflate_table -> stub returning Success (table contents are KI4's subject; the symbol decoder is stubbed to suspend)",
+                   "State::len_and_friends -> 'suspends at once'", "checked stubs for Writer::copy_match / extend_from_window"])
 
 # ---------------------------------------------------------------- inflate: KI6 fast loop
-h("ki6_fast_loop_room", I + "/ki6_fast.rs", "inflate::verif_kani::ki6_fast", ["C02"], kernel="KI6", tier="thorough", expect_s=1800, timeout=5400, weight=4, mem_gb=30,
-  functions=["inflate::inflate_fast_help_impl::<NONE> (one 'outer iteration)", "BitReader::refill", "Writer::push", "Writer::copy_match_with_features",
-             "Writer::extend_from_window_with_features", "inffixed_tbl::{LENFIX,DISTFIX}"],
+h("ki6_fast_loop_room", I + "/ki6_fast.rs", "inflate::verif_kani::ki6_fast", ["C02"], kernel="KI6", expect_s=300, timeout=2400, weight=3, mem_gb=20,
+  functions=["inflate::inflate_fast_help_impl::<NONE> (one 'outer iteration)", "BitReader::refill", "BitReader::return_unused_bytes", "Writer::push",
+             "inffixed_tbl::{LENFIX,DISTFIX}"],
   bounds="entry condition of the fast loop: 15 symbolic input bytes, output room = INFLATE_FAST_MIN_LEFT + 0..=2 inside a canaried array, fixed tables, window 8 with symbolic have",
-  unwindset=[("Writer", None, 262), ("spec_fill", None, 262), ("inflate_fast_help_impl", None, 3), ("ki6_fast::fast_one_iteration", None, 10)],
-  assumptions=["inflate_table stubbed (fixed tables only)"])
+  unwindset=[("inflate_fast_help_impl", None, 3), ("ki6_fast::fast_one_iteration", None, 10)],
+  assumptions=["inflate_table stubbed (fixed tables only)",
+               "Writer::copy_match_with_features / extend_from_window_with_features -> contract stubs that assert the caller-side precondition "
+               "(offset <= filled, length <= remaining, range inside the window) and account for the bytes; the primitives themselves are KI2's subject"])
+
+h("kd10_set_dictionary_protocol", E, EP, ["C13", "C05", "C16"], kernel="KD10", expect_s=60, timeout=1200,
+  functions=["deflate::set_dictionary"],
+  bounds="typed state w_size 512, wrap 0/1/2, Init or Busy, lookahead 0..=2, dictionary of every length 0..=1100 (beyond twice the window)",
+  assumptions=["adler32 -> stand-in that identifies the slice checksummed (start, length, address)",
+               "fill_window -> contract stub (consumes the input; window/hash contents are outside this harness)", "<[u16]>::fill -> write_bytes model"])
+
